@@ -52,7 +52,7 @@ inductive Rel where
 /-- what the load-function entries do during this call -/
 inductive Fault where
   | none
-  | io       -- raise IOError: "try the next one"
+  | io       -- raise IOError or TemplateNotFound (what `prefixed()` raises): "try the next one"
   | other    -- raise something else: propagates
   deriving DecidableEq, Repr
 
